@@ -34,7 +34,9 @@ def run(tier, seed):
         raise Inconclusive("RegexpCache spec bug")
     check.add_tlc(r)
     if not quick:
-        poolsfam.model(check, "2g-2calls", "g1, g2", 2, panic=False, timeout=3 * 3600)
+        # 2 goroutines x 2 calls is out of reach exhaustively (measured, see poolsfam.model_sim): random behaviours of larger configurations
+        poolsfam.model_sim(check, "2g-2calls-6obj", "g1, g2", 2, False, 6, 6000)
+        poolsfam.model_sim(check, "3g-2calls-7obj-panic", "g1, g2, g3", 2, True, 7, 6000)
     # 2. independence + ownership on real executions (outcomes vs alone/fresh references, pool monitor on the merged stream)
     gs = "2,8,32" if quick else "2,3,4,8,16,32,64,64"
     n = 20 if quick else 150
